@@ -17,6 +17,7 @@ fn main() {
         std::process::exit(2);
     }
     engine::install_panic_hook();
+    engine::learn_unoffered_caps();
     let id = args[1].as_str();
     let seed: i64 = std::env::var("VERIF_SEED").ok().and_then(|s| s.parse().ok()).unwrap_or(0);
     let code = if args[2] == "replay" {
